@@ -235,7 +235,7 @@ theorem found_iff_same_millisecond (k : String) (u : Int) (o : Option Int) (u' :
 example : Proofs.C18.plainKey "a.b" = true := by decide +kernel
 example : candsKey "a.b" (.doc [("a", .doc [("b", patch (.date 1577856600123456 (some 330)))])])
     = .ok [some (patch (.date 1577856600123456 (some 330)))] := by
-  simp [candsKey, keyOk, splitDots, splitDotsChars, cands, dget, patch]
+  simp [candsKey, splitDots, splitDotsChars, cands, dget, patch]
 
 /-! ## 6. provenance: where a stored datetime can come from
 
